@@ -139,6 +139,26 @@ def run(tier, replay=None):
         ngr += rep["cases"]
         take(rep, label)
     cov["type_depth_and_include_graph_cases"] = ngr
+    # 3c. include sequences of spec/Incl.tla: every pattern of good / missing / broken / nested
+    # included files; the model says which are accepted, the oracle is judged on the real message
+    r = vlib.run_tlc("Incl", "Incl3.cfg" if not thorough else "Incl4.cfg", workdir=wd, workers=1, timeout=1800)
+    if not r.ok:
+        raise vlib.Infra("Incl: " + r.out[-1500:])
+    irows = [json.loads(l) for l in open(os.path.join(wd, "incl_rows.ndjson"))]
+    lexcases.write([lexcases.incl_case(i, x) for i, x in enumerate(irows)], os.path.join(wd, "i.ndjson"))
+    p = vh(["parse-cases", os.path.join(wd, "i.ndjson"), os.path.join(wd, "i.json")], timeout=1800)
+    if p.returncode != 0:
+        viols.append({"key": "C08:process:crash on include sequences",
+                      "what": "the process died on the include sequences of Incl.tla: %s" % p.stderr[:300].replace("\n", " "),
+                      "replay": {"stderr.txt": p.stderr[:4000]}})
+    else:
+        rep = json.load(open(os.path.join(wd, "i.json")))
+        take(rep, "include sequence of Incl.tla")
+        cov["include_sequences"] = rep["cases"]
+        cov["include_sequences_outcome_differs_from_model"] = len(rep.get("wrong") or [])
+        for w in (rep.get("wrong") or [])[:3]:
+            print("NOTE model-drift include sequence %s: spec/Incl.tla says %s" % (w["id"], w["class"]))
+        states += len(irows)
     cov["timings_ms_of_large_inputs"] = times[:40]
     # 4. token edits
     srcs = []
